@@ -438,21 +438,31 @@ def coverage_frame(grid, cov):
     res = grid.resolutions[lc]
     tw, th = grid.tile_size[0] * res, grid.tile_size[1] * res
     b = grid.bbox
-    if grid.srs.srs_code in ('EPSG:3857', 'EPSG:4326'):
+    is_global = grid.srs.srs_code in ('EPSG:3857', 'EPSG:4326')
+
+    def clamp(xs, ys):
         # the global grids end where the coordinate system ends: coordinates beyond it are not valid input
         # (longitudes wrap around when the coverage extent is computed) - every real coverage respects that
-        xs = [min(max(v, b[0]), b[2]) for v in xs]
-        ys = [min(max(v, b[1]), b[3]) for v in ys]
-    if xs[1] - xs[0] < 1e-6 * tw:
-        if xs[0] + tw <= b[2]:
-            xs[1] = xs[0] + tw
-        else:
-            xs[0] = xs[1] - tw
-    if ys[1] - ys[0] < 1e-6 * th:
-        if ys[0] + th <= b[3]:
-            ys[1] = ys[0] + th
-        else:
-            ys[0] = ys[1] - th
+        if is_global:
+            xs = [min(max(v, b[0]), b[2]) for v in xs]
+            ys = [min(max(v, b[1]), b[3]) for v in ys]
+        return xs, ys
+    xs, ys = clamp(xs, ys)
+
+    def widen(vs, span, lo, hi):
+        # a degenerate frame becomes one tile wide, inside [lo, hi] (the global grids) where that matters
+        if vs[1] - vs[0] >= 1e-6 * span:
+            return vs
+        if not is_global:
+            return [vs[0], vs[0] + span]
+        a = min(max(vs[0], lo), hi)
+        if a + span <= hi:
+            return [a, a + span]
+        return [max(lo, hi - span), hi]
+    xs = widen(xs, tw, b[0], b[2])
+    ys = widen(ys, th, b[1], b[3])
+    if is_global and not (b[0] <= xs[0] < xs[1] <= b[2] and b[1] <= ys[0] < ys[1] <= b[3]):
+        raise core.HarnessError('coverage frame %r outside the valid area %r' % ((xs, ys), b))
     return [xs[0], ys[0], xs[1], ys[1]]
 
 
@@ -1184,6 +1194,7 @@ def search(strategy, check, st_, n, seed, max_signatures=4):
 def random_shard(shard, nshards, seed, tier):
     st_ = core.Stats()
     n = (16000 if tier == 'quick' else 400000) // nshards
+    n = max(10, int(n * float(os.environ.get('VERIF_C12_SCALE', '1'))))   # reduced runs while developing
     base = _scratch('c12-shard-')
     try:
         search(cases(), lambda c, s: check_case(c, s, base=base), st_, n, seed)
